@@ -1,50 +1,80 @@
 #!/usr/bin/env python3
-"""Replay every kept seeded change against the current checks: apply seeded/<id>-<n>/patch.diff to /repo, run the
-property's quick check, undo the patch (and put the clean-tree evidence file back).  Writes seeded/RESEED.json and
-prints one line per seed; exit 1 if a seed is no longer caught or no longer applies.
-usage: reseed.py [C03 C16 ...]   (default: all)"""
-import json, os, subprocess, sys, time
+"""Replay every kept seeded change against the current checks - the regression suite of the checks themselves.
+For each seeded/<id>-<n>/patch.diff: apply it to a scratch copy of /repo, run the property's quick check from a scratch copy
+of /verif against that copy (VERIF_REPO), undo it.  /repo and /verif themselves are not touched (no evidence is written
+there); the scratch copies live under --root (default /var/tmp/reseed) and are removed at the end.
+Writes seeded/RESEED.json and prints one line per seed; exit 1 if a seed is no longer caught or no longer applies.
+usage: reseed.py [--jobs N] [--root DIR] [C03 C16 ...]   (default: all properties, 3 workers)"""
+import json, os, shutil, subprocess, sys, time
+from concurrent.futures import ThreadPoolExecutor
 V = "/verif"
-want = set(a.upper() for a in sys.argv[1:])
+args = sys.argv[1:]
+jobs, root = 3, "/var/tmp/reseed"
+while args and args[0].startswith("--"):
+    if args[0] == "--jobs":
+        jobs = int(args[1]); args = args[2:]
+    elif args[0] == "--root":
+        root = args[1]; args = args[2:]
+    else:
+        sys.exit(__doc__)
+want = set(a.upper() for a in args)
 env = dict(os.environ, GOFLAGS="-mod=mod", GOPROXY="off", GOSUMDB="off", GOTOOLCHAIN="local")
 
 
-def run(cmd, cwd=V, timeout=3000):
-    p = subprocess.run(cmd, shell=True, cwd=cwd, env=env, stdout=subprocess.PIPE, stderr=subprocess.STDOUT, timeout=timeout)
+def run(cmd, cwd, timeout=3000, extra=None):
+    p = subprocess.run(cmd, shell=True, cwd=cwd, env=dict(env, **(extra or {})), stdout=subprocess.PIPE, stderr=subprocess.STDOUT, timeout=timeout)
     return p.returncode, p.stdout.decode("utf-8", "replace")
 
 
-rc, out = run("git -C /repo status --short")
-assert out.strip() == "", "/repo is dirty: " + out
-res, bad = {}, 0
 seeds = sorted(d for d in os.listdir(os.path.join(V, "seeded")) if os.path.isfile(os.path.join(V, "seeded", d, "patch.diff")))
-for d in seeds:
-    prop = d.split("-")[0]
-    if want and prop not in want:
-        continue
-    patch = os.path.join(V, "seeded", d, "patch.diff")
-    rc, out = run("git -C /repo apply %s" % patch)
-    if rc != 0:
-        res[d] = {"applies": False}
-        bad += 1
-        print(d, "DOES NOT APPLY", out.strip()[:200], flush=True)
-        continue
-    evp = os.path.join(V, "evidence", prop + ".json")
-    saved = open(evp, "rb").read() if os.path.exists(evp) else None
-    try:
+seeds = [d for d in seeds if not want or d.split("-")[0] in want]
+props = sorted({d.split("-")[0] for d in seeds})
+jobs = max(1, min(jobs, len(props)))
+# whole properties per worker (same harness build), longest first
+groups = [[] for _ in range(jobs)]
+for i, p in enumerate(sorted(props, key=lambda p: -sum(1 for d in seeds if d.startswith(p + "-")))):
+    groups[i % jobs].append(p)
+shutil.rmtree(root, ignore_errors=True)
+
+
+def worker(j):
+    w = os.path.join(root, "w%d" % j)
+    os.makedirs(w)
+    run("rsync -a --exclude .git --exclude replays --exclude seeded /verif/ %s/verif/" % w, "/")
+    run("git clone -q /repo %s/repo" % w, "/")        # the committed HEAD, whatever the working tree holds at the moment
+    res = {}
+    for d in [d for d in seeds if d.split("-")[0] in groups[j]]:
+        prop = d.split("-")[0]
+        rc, out = run("git apply %s" % os.path.join(V, "seeded", d, "patch.diff"), w + "/repo")
+        if rc != 0:
+            res[d] = {"applies": False}
+            print(d, "DOES NOT APPLY", out.strip()[:200], flush=True)
+            continue
         t0 = time.time()
-        rc, out = run("./check %s --tier quick" % prop)
+        try:
+            rc, out = run("./check %s --tier quick" % prop, w + "/verif", extra={"VERIF_REPO": w + "/repo"})
+        except subprocess.TimeoutExpired:
+            rc, out = -9, "timeout"
+        finally:
+            run("git checkout -- .", w + "/repo")
         lines = [l[:200] for l in out.splitlines() if l.startswith(("VIOLATION", prop))]
-    finally:
-        run("git -C /repo checkout -- .")
-        if saved is not None:
-            open(evp, "wb").write(saved)
-    caught = rc == 1 and any(l.startswith("VIOLATION property=%s " % prop) for l in lines)
-    res[d] = {"applies": True, "caught": caught, "wall_s": round(time.time() - t0, 1), "lines": lines}
-    bad += 0 if caught else 1
-    print(d, "caught" if caught else "MISSED", lines[-1] if lines else out[-200:], flush=True)
+        caught = rc == 1 and any(l.startswith("VIOLATION property=%s " % prop) for l in lines)
+        broken = [l for l in lines if " broken=" in l and " broken=0 " not in l]
+        res[d] = {"applies": True, "caught": caught, "wall_s": round(time.time() - t0, 1), "lines": lines,
+                  "by_broken_build": bool(broken)}
+        print(d, "caught" if caught else "MISSED", "(BROKEN BUILD) " if broken else "", lines[-1] if lines else out[-200:], flush=True)
+    return res
+
+
+res = {}
+with ThreadPoolExecutor(jobs) as ex:
+    for r in ex.map(worker, range(jobs)):
+        res.update(r)
+shutil.rmtree(root, ignore_errors=True)
+bad = sum(1 for r in res.values() if not r.get("caught") or r.get("by_broken_build"))
 head = subprocess.check_output(["git", "-C", "/repo", "rev-parse", "--short", "HEAD"]).decode().strip()
+vhead = subprocess.check_output(["git", "-C", V, "rev-parse", "--short", "HEAD"]).decode().strip()
 if not want:
-    json.dump({"repo_head": head, "seeds": res}, open(os.path.join(V, "seeded", "RESEED.json"), "w"), indent=1)
+    json.dump({"repo_head": head, "verif_head": vhead, "seeds": dict(sorted(res.items()))}, open(os.path.join(V, "seeded", "RESEED.json"), "w"), indent=1)
 print("%d seeds, %d not caught" % (len(res), bad))
 sys.exit(1 if bad else 0)
